@@ -689,8 +689,8 @@ def hold_state(hist, pid):
     deps = []
     wait = False
     for _, user, text in w.comments(pid):
-        if user == ROBOT:
-            continue
+        # (no message of the robot itself consists of one of these short
+        # forms; a hold posted through the robot's account is a hold)
         t = text.strip()
         if t in WAIT_TEXTS:
             wait = True
